@@ -1,6 +1,7 @@
 (** C04 — transit agents see only ciphertext of tunnelled application data
     and never hold the tunnel key. *)
 From Coq Require Import List NArith Bool.
+From Coq Require String.
 From Coq.Strings Require Import Byte.
 From MM Require Import Lib.Bytes Model.Tunnel Model.Transit Proofs.TunnelProofs Proofs.TransitProofs Generated.C04.
 Import ListNotations.
@@ -76,6 +77,35 @@ Theorem C04_transits_see_the_same : forall ver k transits ops,
 Proof. exact transits_see_the_same. Qed.
 Print Assumptions C04_transits_see_the_same.
 
+(** Stream data paths under a close / reset / stop that lands between "bytes
+    read" and "bytes sealed" (exit and forward readLoop, shell pumps, file
+    streaming).  In the code as it is the key the sender loop uses is written
+    once when the stream is set up and never changed or zeroed
+    (C04_source_facts below): for every sequence of sends, closes and sends
+    after the close, every payload the transit next to the exit sees is sealed
+    under the tunnel's own key - late bytes are either not emitted or emitted
+    under that key, never otherwise. *)
+Theorem C04_stream_exit_sealed_under_any_close : forall k ops,
+  Forall (fun s => sealed_under k (snd s) = true /\ readable (snd s) = []) (x_view (sx_run KeepKey k ops)).
+Proof. exact stream_exit_sealed_under_any_close. Qed.
+Print Assumptions C04_stream_exit_sealed_under_any_close.
+
+(** The variant in which the close zeroes the key the loop is about to use
+    (a zeroed key is still a valid AEAD key that everybody knows): the late
+    bytes leave under the all-zero key. *)
+Theorem C04_refuted_if_close_wipes_stream_key : exists (ops : list sxop) (secret : bytes) (c : N),
+  secret <> [] /\
+  In (DDown, Whole zero_key c secret) (x_view (sx_run WipeKey 7 ops)) /\
+  sealed_under 7 (Whole zero_key c secret) = false /\
+  open zero_key 0 (Whole zero_key c secret) = Some (c, secret).
+Proof. exact stream_exit_wipe_refuted. Qed.
+Print Assumptions C04_refuted_if_close_wipes_stream_key.
+
+Theorem C04_stream_race_oracle_is_the_model : forall pol k ops, k <> zero_key ->
+  view_totals k (x_view (sx_run pol k ops)) = sz_sx_run pol (map sxop_size ops).
+Proof. exact sx_oracle_is_the_model. Qed.
+Print Assumptions C04_stream_race_oracle_is_the_model.
+
 (** Transit agents never hold the key: from everything a transit receives of
     a tunnel - both ephemeral public halves and all sealed payloads - neither
     the session key, the shared secret, a private scalar nor any payload
@@ -124,6 +154,10 @@ Theorem C04_source_facts :
   forallb snd gen_relay_verbatim = true /\ length gen_relay_verbatim = 3%nat /\
   forallb snd gen_exit_checks_closed = true /\ length gen_exit_checks_closed = 4%nat /\
   forallb snd gen_ingress_seals_with_key = true /\ length gen_ingress_seals_with_key = 3%nat /\
-  forallb snd gen_stream_senders_need_key = true /\ length gen_stream_senders_need_key = 6%nat.
+  forallb snd gen_stream_senders_need_key = true /\ length gen_stream_senders_need_key = 6%nat /\
+  (* the only code that zeroes a session key are the Close methods whose Encrypt/Decrypt check the closed flag under the same lock *)
+  forallb (fun f => existsb (String.eqb f) allowed_key_zeroers) gen_session_key_zeroers = true /\
+  (* the only code that assigns a session key field: the open-time setters and those two Close methods; nothing in exit, forward, shell or the file transfer streams *)
+  forallb (fun f => existsb (String.eqb f) allowed_key_writers) gen_session_key_writers = true.
 Proof. repeat split; reflexivity. Qed.
 Print Assumptions C04_source_facts.
